@@ -156,19 +156,16 @@ Proof.
 Qed.
 
 (* the loop inside "<!--" of a script element *)
-Lemma script_comment_run zs b fuel r : loop fuel script_comment_body (zs, b) = Ok r ->
+Definition sc_post (zs : lx) (r : lx + lx) : Prop :=
   match r with
   | inl z' => samele zs z'
   | inr z' => samele zs z' /\ (at_end z' = true \/ end_tag_at html_hash_Script (lbuf zs) (lpos z'))
   end.
+
+Lemma script_comment_step_run zs (s0 : lx * bool) x : samele zs (fst s0) -> script_comment_body s0 = Ok x ->
+  match x with Cont s' => samele zs (fst s') | Brk r => sc_post zs r end.
 Proof.
-  intros H.
-  refine (loop_inv (fun s => samele zs (fst s))
-            (fun r => match r with
-                      | inl z' => samele zs z'
-                      | inr z' => samele zs z' /\ (at_end z' = true \/ end_tag_at html_hash_Script (lbuf zs) (lpos z'))
-                      end) script_comment_body _ _ (zs, b) r _ H); [|apply samele_refl].
-  clear. intros [s ins] x Hs Hx. cbn [fst] in Hs. unfold script_comment_body in Hx.
+  unfold sc_post. destruct s0 as [s ins]. intros Hs Hx. cbn [fst] in Hs. unfold script_comment_body in Hx.
   destruct (pkr s 0) as [c| |] eqn:E0; cbn [rbind] in Hx; try discriminate.
   assert (Hp0 : pk s 0 = Some c) by (unfold pkr in E0; destruct (pk s 0); cbn in E0; congruence).
   destruct (c =? 45) eqn:E45.
@@ -206,6 +203,15 @@ Proof.
   destruct (eof0 s c) eqn:Ee; injection Hx as <-.
   - split; [exact Hs|]. left. unfold eof0 in Ee. b2p. assumption.
   - cbn [fst]. eapply samele_trans; [exact Hs|apply samele_mv; lia].
+Qed.
+
+Lemma script_comment_run c zs b h fuel r : loop fuel (script_comment_loop_body c) (zs, b, h) = Ok r -> sc_post zs (fst r).
+Proof.
+  intros H. unfold script_comment_loop_body in H.
+  refine (with_tmpl_inv c _ _ (fun sh : lx * bool * bool => samele zs (fst (fst sh))) (fun r : (lx + lx) * bool => sc_post zs (fst r))
+            script_comment_body _ _ fuel (zs, b, h) r (samele_refl zs) H).
+  - intros s h0 z' Hs _ Hk. cbn [fst] in *. eapply samele_trans; [exact Hs|apply (tmpl_skip_run _ _ _ Hk)].
+  - intros s h0 x Hs Hx. cbn [fst] in *. pose proof (script_comment_step_run zs s x Hs Hx) as Hp. destruct x; exact Hp.
 Qed.
 
 Definition nomatch (raw : Z) (buf : list Z) (a b : Z) : Prop := forall p, a <= p < b -> ~ end_tag_at raw buf p.
@@ -249,6 +255,15 @@ Proof.
   destruct (pkr s 0) as [c0| |] eqn:E0; cbn [rbind] in Hx; try discriminate.
   assert (Hp0 : pk s 0 = Some c0) by (unfold pkr in E0; destruct (pk s 0); cbn in E0; congruence).
   assert (Hq0 : peekz (lbuf z) (lpos s) = Some c0) by (rewrite <- Hb; apply pk_peekz in Hp0; rewrite Z.add_0_r in Hp0; exact Hp0).
+  (* l.skipTemplate() first *)
+  unfold skip_tmpl in Hx.
+  destruct (tmpl_at c s) as [t| |] eqn:Et; cbn [rbind] in Hx; try discriminate.
+  destruct t.
+  { destruct (tmpl_skip c s) as [z'| |] eqn:Ez'; cbn [rbind] in Hx; try discriminate. injection Hx as <-. cbn [fst].
+    apply tmpl_skip_run in Ez'. destruct Ez' as [Hz' Hz'le].
+    split; [eapply same_trans; eauto|]. split; [lia|].
+    intros Hd. unfold tmpl_at in Et. rewrite Hd in Et. discriminate. }
+  cbn [rbind] in Hx.
   (* moving one byte over something that is not the start of an end tag *)
   assert (Hstep1 : (c0 <> 60 \/ exists c1, pk s 1 = Some c1 /\ c1 <> 47) ->
                    has_delims c = false -> nomatchp raw (lbuf z) (lpos z) (lpos s + 1)).
@@ -296,8 +311,8 @@ Proof.
         assert (Hvac : forall b, has_delims c = false -> nomatchp raw (lbuf z) (lpos z) b).
         { intros b Hd p Hp Hpl. destruct (Z.lt_ge_cases p (lpos s)) as [Hlt|Hge]; [apply (Hnm0 Hd p); [lia|exact Hpl]|].
           exfalso. destruct Hpl as [Hr|Hnc]; [congruence|]. apply (Hnc (lpos s)); [lia|exact Hco]. }
-        destruct (loop (fuel_of s) script_comment_body (mv s 4, false)) as [r2| |] eqn:Er2; cbn [rbind] in Hx; try discriminate.
-        pose proof (script_comment_run _ _ _ _ Er2) as Hr2.
+        destruct (loop (fuel_of s) (script_comment_loop_body c) (mv s 4, false, h0)) as [[r2 h2]| |] eqn:Er2; cbn [rbind] in Hx; try discriminate.
+        pose proof (script_comment_run _ _ _ _ _ _ Er2) as Hr2. cbn [fst] in Hr2. unfold sc_post in Hr2.
         (* positions are monotone: use the total specification for that *)
         destruct r2 as [z'|z']; injection Hx as <-; cbn [fst].
         * destruct Hr2 as [Hr2 Hr2le]. cbn [mv lpos] in Hr2le.
@@ -309,16 +324,10 @@ Proof.
           destruct He as [He|He]; [left; exact He|right]. cbn [mv lbuf] in He. rewrite Hb in He. rewrite Hraw. exact He.
       + injection Hx as <-. cbn [fst]. split; [eapply same_trans; [exact Hs|apply same_mv]|]. cbn [mv lpos]. split; [lia|].
         apply Hstep1. right. eauto. }
-  destruct (tmpl_at c s) as [t| |] eqn:Et; cbn [rbind] in Hx; try discriminate.
   assert (Hc60 : c0 <> 60) by (b2p; assumption).
-  destruct t.
-  - destruct (tmpl_skip c s) as [z'| |] eqn:Ez'; cbn [rbind] in Hx; try discriminate. injection Hx as <-. cbn [fst].
-    apply tmpl_skip_run in Ez'. destruct Ez' as [Hz' Hz'le].
-    split; [eapply same_trans; eauto|]. split; [lia|].
-    intros Hd. unfold tmpl_at in Et. rewrite Hd in Et. discriminate.
-  - destruct (eof0 s c0) eqn:Ee; injection Hx as <-; cbn [fst].
-    + split; [exact Hs|]. split; [exact Hle|]. split; [left; unfold eof0 in Ee; b2p; assumption|exact Hnm0].
-    + split; [eapply same_trans; [exact Hs|apply same_mv]|]. cbn [mv lpos]. split; [lia|]. apply Hstep1. left. exact Hc60.
+  destruct (eof0 s c0) eqn:Ee; injection Hx as <-; cbn [fst].
+  - split; [exact Hs|]. split; [exact Hle|]. split; [left; unfold eof0 in Ee; b2p; assumption|exact Hnm0].
+  - split; [eapply same_trans; [exact Hs|apply same_mv]|]. cbn [mv lpos]. split; [lia|]. apply Hstep1. left. exact Hc60.
 Qed.
 
 Lemma plaintext_loop_run z fuel z' : loop fuel plaintext_body z = Ok z' -> at_end z' = true.
